@@ -240,6 +240,30 @@ def evaluate_cases(ctx, cases, judge_excluded: bool = False, observed: Optional[
     return out
 
 
+def spec_request(res, observed):
+    """the driver's `spec` op on the values the compiled job printed"""
+    form, r = res["form"], res["impl"]
+    leaves = X.leaves_of(form) + [["R", r["spec"].get("resTy", "double"), X.IF_SLOT]]
+    if form["form"] == "agg":
+        leaves = [l for l in leaves if l[0] != "A"] + [["A", r["spec"]["accTy"], X.ACC_SLOT]]
+    return {"op": "spec", **clean(form), "impl": r["spec"], "leaves": leaves, "samples": res["samples"], "observed": observed}
+
+
+def judge_spec(ctx, res, s, observed):
+    """Spec on the observed values of the compiled job (thorough tier)"""
+    form, level, r = res["form"], res["level"], res["impl"]
+    if s.get("holds") is False and not s.get("excluded"):
+        key = X.form_key(form, level)
+        if key not in {e["key"] for e in ctx.known_entries("known")}:
+            ctx.violation(
+                key=key,
+                what="compiled job: " + s["why"],
+                case={"level": level, "form": form, "query": X.form_src(form, level)},
+                observed={"column_type": r["ty"], "emitted": r["lines"] + [r["fill"]], "g++ values": observed, "rows": s.get("rows")},
+                how=HOW,
+            )
+
+
 def canon_refusal(c):
     return {"err": "refused"} if "err" in c else c
 
@@ -384,7 +408,7 @@ def run(ctx):
     if ctx.tier == "thorough":
         from c13_lib import cxx
 
-        cxx.run_compiled(ctx, results, accepted, evaluate_cases, judge, HOW, known_keys)
+        cxx.run_compiled(ctx, results, accepted, spec_request, judge_spec, HOW, known_keys)
 
 
 # ------------------------------------------------------------------------------------------------------------ search
